@@ -172,6 +172,7 @@ BASES = (
     'http://a', 'http://a/', 'http://a/b', 'http://a/b/', 'http://a/b/c', 'http://a/b/c/',
     'http://a/b/c/d;p?q',                                           # the base of RFC 3986 5.4
     'http://a?q', 'http://a#f', 'http://a/?q#f', 'http://a/b?q=1&r=2', 'http://a/b/c?q#f', 'http://a/b/#f',
+    'http://a/b?t=1&u=2&t=3',                                       # a query that repeats a key
     'http://a//', 'http://a//b', 'http://a/b//c', 'http://a/b//', 'http://a/b///c/',
     'http://a/./b', 'http://a/b/../c', 'http://a/b/c/..', 'http://a/b/c/.', 'http://a/../b',
     'http://a/b/./c/../d?q',
